@@ -182,6 +182,36 @@ def group_shapes(gkey, tier):
     return shapes
 
 
+def group_only_item(gkey):
+    """First member followed *directly* by every group-valued member (no plain field in between)."""
+    mem = GROUPS[gkey]
+    nested = [m for m in mem if m in GROUPS]
+    if len(nested) < 1:
+        return None
+    return [(mem[0], "v")] + [(m, [_item_spec(m, GROUPS[m], 3, 0, 0)]) for m in nested]
+
+
+def h_adjacent(I, gkey, other, nsym, L):
+    """Group (nested to full depth, item ending in its nested groups) *directly* followed by another
+    message-level group, with no plain field between them or after them."""
+    sess, pre_out = _session(I, 2, False)
+    msg = FIXMessage("D")
+    counter = [0, 0]
+    spec = group_only_item(gkey) or _item_spec(gkey, GROUPS[gkey], 3, 0, 0)
+    body = []
+    items, iexp = [], []
+    for k in range(2):
+        g, e = _build(I, spec, f"i{k}.", counter, nsym, L)
+        items.append(g)
+        iexp.append(e)
+    msg.set_group(gkey, items)
+    body.append((gkey, iexp))
+    g2, e2 = _build(I, _item_spec(other, GROUPS[other], 3, 0, 0), "o.", counter, nsym, L)
+    msg.set_group(other, [g2])
+    body.append((other, [e2]))
+    return _roundtrip(I, msg, sess, "normal", None, pre_out, "D", body)
+
+
 def h_group(I, gkey, items_spec, mode, nsym, L, digits, trailing):
     sess, pre_out = _session(I, digits, False)
     mtype, lead, lead_exp, carried = _mode_fields(I, mode, digits)
@@ -243,6 +273,15 @@ def cells(tier):
                                      symbolic_values=nsym, values=f"1..{L} chars, {valb}", mode=mode,
                                      counters="< 10^3", nesting="to the depth of the table"),
                                 goals=["roundtrip"], regions=reg))
+    for gkey in sorted(GROUPS, key=int):
+        if not any(m in GROUPS for m in GROUPS[gkey]):
+            continue
+        other = "454" if gkey != "454" else "78"
+        if other in GROUPS[gkey]:
+            other = "555" if "555" not in GROUPS[gkey] else "711"
+        out.append(Cell(f"adjacent/{gkey}+{other}", (lambda I, g=gkey, o=other: h_adjacent(I, g, o, 2, 2)),
+                        dict(group=gkey, followed_directly_by=other, items="first member + every nested group, no plain field between groups",
+                             symbolic_values=2, values=f"1..2 chars, {valb}"), goals=["roundtrip"], regions=reg))
     return out
 
 
